@@ -418,7 +418,9 @@ def restoreFrom (s : Store) (p : Snap) : Option Store :=
       | some old => aerase old.nid s.byNid
       | none => s.byNid
     let (groups'', byNid') := match p.group with
-      | some g => (groups' ++ [g], ainsert g.nid g byNid)
+      -- the cache entry of the group is overwritten (list position is unobservable: every listing is
+      -- canonicalised), so the record list is updated in place exactly as on SQLite
+      | some g => (replaceGroup g s.groups, ainsert g.nid g byNid)
       | none => (groups', byNid)
     let relays' := if p.relays.isEmpty then aerase gid s.relays else ainsert gid p.relays (aerase gid s.relays)
     some { s with groups := groups'', byNid := byNid', relays := relays', secrets := secrets', mls := mls',
